@@ -2793,7 +2793,7 @@ Proof.
   { rewrite Forall_forall in Occ. intros s Hs. exact (proj1 (Occ _ Hs)). }
   rewrite OV in OV'. inversion OV'; subst vals'. clear OV'.
   exists prev, lvp, vals, top, rest.
-  split; [exact Np|]. split; [exact OV|]. split; [exact G|]. split; [lia|]. split; [exact LT|]. split; [exact TL|].
+  split; [reflexivity|]. split; [exact OV|]. split; [exact G|]. split; [lia|]. split; [exact LT|]. split; [exact TL|].
   split; [|split].
   - intros pos t Ht. unfold top_of_previous_rung. rewrite Nb, TL, Ht. reflexivity.
   - intros Hv. unfold get_top_list in G. apply Nat.leb_le in Hv. rewrite Hv in G. inversion G as [[Top Rem]].
